@@ -1,4 +1,5 @@
 import AtreeProofs.WorldCodec.MapSlab
+import AtreeProofs.Map.Example
 /-
   NON-VACUITY of `AtreeProofs/WorldCodec/MapSlab.lean`: a concrete world (T = 256, four digest
   levels) with a STANDALONE MAP `Mid` of three keys — two of them collide at the first digest level
@@ -274,3 +275,40 @@ theorem inl_ok : OKAll (WSlab.toCodec w0.stor (WSlab.map (.group hslab) none)) :
   (inl_goal (Hid, _) (by rw [inl_slabs_eq]; exact List.mem_cons_self) (by decide) (by decide)).1
 
 end Atree.WC.MapExample
+
+/-! ### an index slab: the root of the multi-slab example map of C02 / C05 (`AtreeProofs/Map/Example.lean`,
+    two digest levels, obtained by running the model) -/
+namespace Atree.WC.IndexExample
+open Atree Atree.Codec Gen Atree.MapExample
+
+def root1 : MMetaSlab (MTree 1 0) :=
+  match run.1 with
+  | ⟨1, r, _, _, _⟩ => r
+  | _ => ⟨default, [], [], false⟩
+
+theorem run_eq : run.1 = ⟨1, root1, run.1.ty, run.1.count, run.1.seed⟩ := by rfl
+
+theorem root1_inv : MTreeInv 256 D2 1 true root1 := by
+  have h := run_good.inv.tree
+  rw [run_eq] at h
+  exact h
+
+theorem D2_lt : ∀ p, ∀ h ∈ D2.dg p, h < 2 ^ 64 := by
+  intro p h hh
+  have : h = p.2 / 100 % 10 ∨ h = p.2 / 10 % 10 := by simpa [D2] using hh
+  rcases this with rfl | rfl
+  · have := Nat.mod_lt (p.2 / 100) (show 0 < 10 by decide); omega
+  · have := Nat.mod_lt (p.2 / 10) (show 0 < 10 by decide); omega
+
+/-- NON-VACUITY of `mindex_ok`: the root index slab of the example map, with the map's extra data -/
+theorem index_ok :
+    MapMetaOK { id := root1.hdr.id, extra := some ⟨.plain 0, 18, 1⟩, childHdrs := root1.childHdrs.map mchildHdrOf } ∧
+      (MapMeta.mk root1.hdr.id (some ⟨.plain 0, 18, 1⟩) (root1.childHdrs.map mchildHdrOf)).size = root1.hdr.size :=
+  mindex_ok legal256 D2_lt 0 true root1 root1_inv (by decide) (by decide) _ (by
+    intro y hy
+    cases hy
+    exact ⟨by decide, by decide, by decide⟩)
+
+theorem index_children : root1.children.length = 2 := by decide
+
+end Atree.WC.IndexExample
